@@ -20,16 +20,17 @@ MAX_ITER = 400
 
 
 class Outcome:
-    """states leaving a statement: normal fallthrough, break, continue"""
-    __slots__ = ("next", "brk", "cont")
+    """states leaving a statement: normal fallthrough, break, continue, and forward gotos (label decl id -> state)"""
+    __slots__ = ("next", "brk", "cont", "gotos")
 
-    def __init__(self, nxt=None, brk=None, cont=None):
-        self.next, self.brk, self.cont = nxt, brk, cont
+    def __init__(self, nxt=None, brk=None, cont=None, gotos=None):
+        self.next, self.brk, self.cont, self.gotos = nxt, brk, cont, gotos or {}
 
 
 class Flow:
     def __init__(self, dom):
         self.d = dom
+        self.seen_labels = set()
 
     # ---- helpers -----------------------------------------------------------
     def j(self, a, b):
@@ -38,6 +39,15 @@ class Flow:
         if b is None:
             return a
         return self.d.join(a, b)
+
+    def jg(self, a, b):
+        """merge two goto maps"""
+        if not b:
+            return a
+        out = dict(a)
+        for k, v in b.items():
+            out[k] = self.j(out.get(k), v)
+        return out
 
     # ---- conditions -----------------------------------------------------------
     def cond(self, e, truth, s):
@@ -75,13 +85,21 @@ class Flow:
         if k == "CompoundStmt":
             out = Outcome(nxt=s)
             for c in ks:
+                if c.get("kind") == "LabelStmt":
+                    # forward gotos to this label (from earlier statements of this block) join the flow here
+                    lid = c.get("declId")
+                    if lid in out.gotos:
+                        out.next = self.j(out.next, out.gotos.pop(lid))
+                    self.seen_labels.add(lid)
+                    c = kids(c)[-1] if kids(c) else {"kind": "NullStmt"}
+                if out.next is None:
+                    # unreachable unless a later label is the target of a pending goto
+                    continue
                 o = self.stmt(c, out.next)
                 out.next = o.next
                 out.brk = self.j(out.brk, o.brk)
                 out.cont = self.j(out.cont, o.cont)
-                if out.next is None:
-                    # rest is unreachable
-                    break
+                out.gotos = self.jg(out.gotos, o.gotos)
             return out
         if k == "NullStmt":
             return Outcome(nxt=s)
@@ -107,7 +125,7 @@ class Flow:
             sf = self.cond(cnd, False, d.copy(s))
             o1 = self.stmt(then, st) if st is not None else Outcome()
             o2 = self.stmt(els, sf) if (els is not None and sf is not None) else Outcome(nxt=sf)
-            return Outcome(self.j(o1.next, o2.next), self.j(o1.brk, o2.brk), self.j(o1.cont, o2.cont))
+            return Outcome(self.j(o1.next, o2.next), self.j(o1.brk, o2.brk), self.j(o1.cont, o2.cont), self.jg(o1.gotos, o2.gotos))
         if k == "WhileStmt":
             return self.loop(s, cond=ks[0], body=ks[-1], inc=None, test_first=True)
         if k == "DoStmt":
@@ -124,8 +142,17 @@ class Flow:
             return self.switch(n, s)
         if k in ("CaseStmt", "DefaultStmt"):
             return self.stmt(ks[-1], s)
-        if k in ("LabelStmt", "GotoStmt", "IndirectGotoStmt"):
-            raise AnalysisBroken("goto/label at %s: the structured interpreter does not handle it" % loc_str(n))
+        if k == "GotoStmt":
+            lid = n.get("targetLabelDeclId")
+            if lid is None or lid in self.seen_labels:
+                raise AnalysisBroken("backward goto at %s: the structured interpreter only handles forward gotos (cleanup labels)" % loc_str(n))
+            return Outcome(gotos={lid: s})
+        if k == "LabelStmt":
+            # a label that is not a direct child of a block
+            self.seen_labels.add(n.get("declId"))
+            return self.stmt(ks[-1], s) if ks else Outcome(nxt=s)
+        if k == "IndirectGotoStmt":
+            raise AnalysisBroken("indirect goto at %s" % loc_str(n))
         # expression statement
         s = d.eval(n, s)
         return Outcome(nxt=s)
@@ -134,6 +161,7 @@ class Flow:
         d = self.d
         head = d.copy(s)            # state at loop head (before the test for while/for; before the body for do)
         exit_state = None
+        loop_gotos = {}
         it = 0
         while True:
             it += 1
@@ -146,6 +174,7 @@ class Flow:
                     exit_now = self.cond(cond, False, d.copy(cur))
                     cur = self.cond(cond, True, cur)
             o = self.stmt(body, cur) if cur is not None else Outcome()
+            loop_gotos = self.jg(loop_gotos, o.gotos)
             after = self.j(o.next, o.cont)
             if inc and after is not None:
                 after = d.eval(inc, after)
@@ -184,9 +213,10 @@ class Flow:
             elif after is not None:
                 final_exit = after
         final_exit = self.j(final_exit, o.brk)
+        loop_gotos = self.jg(loop_gotos, o.gotos)
         if test_first and not cond:
             pass
-        return Outcome(nxt=final_exit)
+        return Outcome(nxt=final_exit, gotos=loop_gotos)
 
     def switch(self, n, s):
         d = self.d
@@ -229,13 +259,16 @@ class Flow:
             flow_in = o.next
             out.brk = self.j(out.brk, o.brk)
             out.cont = self.j(out.cont, o.cont)
+            out.gotos = self.jg(out.gotos, o.gotos)
         nxt = self.j(flow_in, out.brk)
         if not has_default:
             nd = d.assume_default(cnd, case_exprs, d.copy(s)) if hasattr(d, "assume_default") else d.copy(s)
             nxt = self.j(nxt, nd)
-        return Outcome(nxt=nxt, cont=out.cont)
+        return Outcome(nxt=nxt, cont=out.cont, gotos=out.gotos)
 
     def function(self, prog, f, init):
         body = prog.body(f)
         o = self.stmt(body, init)
+        if o.gotos:
+            raise AnalysisBroken("goto to a label that is not in an enclosing block of %s" % f.get("name"))
         return o.next       # state falling off the end (void functions)
